@@ -129,7 +129,7 @@ class C11(Prop):
         if t is None:
             return "noitems"
         items, rest = t
-        return (tuple(items), rest.get("steps"), rest.get("ended"), rest.get("fused"), rest.get("sbytes"), rest.get("towned"))
+        return (tuple(items), rest.get("steps"), rest.get("ended"), rest.get("fused"), rest.get("sbytes"), rest.get("towned"), rest.get("adapt"))
 
     def relation(self, ops, impl):
         out = []
@@ -148,6 +148,8 @@ class C11(Prop):
             items, rest = t
             if items != want or rest.get("ended") != "1" or rest.get("fused") != "1" or rest.get("sbytes") != "1" or rest.get("towned") != "1" or int(rest.get("steps", -1)) != len(want):
                 out.append(Violation("relation", op, il, None, "reference TLV walk is %r, ends and stays ended" % (want[:8],)))
+            elif rest.get("adapt") != "1":
+                out.append(Violation("relation", op, il, None, "collect / count / last / nth / skip / step_by / a copy taken mid-way do not describe the sequence that next() yields"))
             elif len(want) > len(sec) // 3 + 1:
                 out.append(Violation("relation", op, il, None, "more than n/3+1 items"))
         return out
